@@ -20,6 +20,7 @@ func (core *JApiCore) compileCore() *jerr.JApiError {
 	if je := core.processPaste(); je != nil {
 		return je
 	}
+	verifStage(core, "paste")
 
 	if je := core.collectRules(); je != nil {
 		return je
